@@ -15,6 +15,7 @@ counter.  `asStr` (Python's `isinstance(v, str)`) and the value type are arbitra
 import TxdbusModel.Proofs.Client.CallsTrace
 import TxdbusModel.Proofs.Client.CallsCvt
 import TxdbusModel.Proofs.Client.CallsFirst
+import TxdbusModel.Proofs.Client.CallsReentrant
 
 namespace Txdbus.C08
 
@@ -299,6 +300,41 @@ theorem counter_run_properties (asStr : V → Option (List Char)) (evs : List (E
    fun k => no_double_completion asStr _ (serials_distinct evs counter) k,
    no_faults asStr _ (serials_distinct evs counter)⟩
 
+/-! ## 7. Re-entrant callers: errbacks that issue new calls from inside the connection's functions -/
+
+/-- The state of a ready connection after the re-entrant operations `ops` (operations, and `onErr did calls`:
+the caller attaches to Deferred `did` an errback issuing `calls` when it runs - inside `errorReceived`,
+`_onMethodTimeout`, `methodReturnReceived` (declared signature not met) or the loop of `connectionLost`). -/
+abbrev finalR (asStr : V → Option (List Char)) (ops : List (OpR V R)) : StR V R :=
+  runR asStr ⟨St.init V R true, []⟩ ops
+
+/-- The sequential operation sequence the re-entrant run amounts to: every operation followed by the calls
+its errbacks issued, as ordinary `call` operations. -/
+abbrev flatOps (asStr : V → Option (List Char)) (ops : List (OpR V R)) : List (Op V R) :=
+  flat asStr ⟨St.init V R true, []⟩ ops
+
+/-- Re-entrancy adds nothing: the state reached with errbacks issuing calls in the middle of
+`connectionLost` (against the table already swapped for a fresh one) and at the end of the other functions
+is exactly the state reached by the flattened sequence - so every theorem above speaks about it; the calls
+issued by errbacks are calls like any other (`refinement`: each completes exactly once, by the first of its
+own return / error / deadline / a later loss). -/
+theorem reentrant_reduces (asStr : V → Option (List Char)) (ops : List (OpR V R))
+    (hd : DistinctSerials (flatOps asStr ops)) :
+    (finalR asStr ops).base = final asStr (flatOps asStr ops) :=
+  runR_base asStr ops ⟨St.init V R true, []⟩ (Inv.init true) (freshRun_init hd true)
+
+/-- With re-entrant errbacks too: every Deferred handed out is in the table unfired or out of table and
+timer list with exactly one firing; nothing raises. -/
+theorem reentrant_exactly_once (asStr : V → Option (List Char)) (ops : List (OpR V R))
+    (hd : DistinctSerials (flatOps asStr ops)) :
+    (∀ k < (finalR asStr ops).base.nextId,
+      ((∃ e ∈ (finalR asStr ops).base.pending, e.2.did = k) ∧ firingsOf k (finalR asStr ops).base.log = []) ∨
+      ((∀ e ∈ (finalR asStr ops).base.pending, e.2.did ≠ k) ∧ (∀ x ∈ (finalR asStr ops).base.timers, x.1 ≠ k) ∧
+        (firingsOf k (finalR asStr ops).base.log).length = 1)) ∧
+    (finalR asStr ops).base.faults = [] := by
+  rw [reentrant_reduces asStr ops hd]
+  exact ⟨exactly_once asStr _ hd, no_faults asStr _ hd⟩
+
 /-! ## Examples: the hypotheses are satisfiable, and the hypothesis is needed -/
 
 section Examples
@@ -328,6 +364,22 @@ example : WellFormed (⟨some ['s'], some [7]⟩ : Reply Nat) := ⟨by simp, 's'
 example : cvtReply (some (⟨some ['s'], some [7]⟩ : Reply Nat)) (.str ['s']) = .one 7 := by decide
 example : (assign 1 ([.call true none .noCheck, .otherMessage, .call true none .noCheck] : List (Ev Nat Nat)))
     = [.call 1 true none .noCheck, .call 3 true none .noCheck] := by decide
+
+/-- A retry issued from the errback of a call failed by the loss of the connection, with a deadline: it is
+registered in the NEW table while `connectionLost` is still walking the old one, survives the walk with its
+timer, and its deadline completes it with TimeOut, exactly once, nothing raised. -/
+def retryOps : List (OpR Nat Nat) :=
+  [ .op (.call 3 true (some 5) .noCheck), .onErr 0 [⟨4, some 3, .noCheck⟩],
+    .op (.call 5 true none .noCheck), .op (.lost 1), .op (.expire 2), .op (.expire 2) ]
+
+theorem retry_during_loss_times_out :
+    flatOps exAsStr retryOps =
+      [.call 3 true (some 5) .noCheck, .call 5 true none .noCheck, .lost 1, .call 4 true (some 3) .noCheck,
+       .expire 2, .expire 2] ∧
+    DistinctSerials (flatOps exAsStr retryOps) ∧
+    firingsOf 2 (finalR exAsStr retryOps).base.log = [.timeOut C08Client.timeoutText.toList] ∧
+    (finalR exAsStr retryOps).base.pending = [] ∧ (finalR exAsStr retryOps).base.timers = [] ∧
+    (finalR exAsStr retryOps).base.faults = [] := by decide
 
 /-- Without distinct serials the property fails in the model (as in the code: the same
 `MethodCallMessage` object sent twice through `callRemoteMessage`): the second registration overwrites
@@ -361,3 +413,6 @@ end Txdbus.C08
 #print axioms Txdbus.C08.serials_distinct
 #print axioms Txdbus.C08.counter_run_properties
 #print axioms Txdbus.C08.serial_reuse_violates
+#print axioms Txdbus.C08.reentrant_reduces
+#print axioms Txdbus.C08.reentrant_exactly_once
+#print axioms Txdbus.C08.retry_during_loss_times_out
